@@ -3,9 +3,13 @@ SPECIFICATION Spec
 CONSTANTS
   MaxSegs = 3
   MaxSwapSegs = 2
+  MaxHist = 3
+  MaxHistSegs = 3
   Dev_NoNoFollow = FALSE
   Dev_LexicalContainment = FALSE
   Dev_PrefixContainment = FALSE
+  Dev_NoIsReg = FALSE
+  Dev_ResolveMemo = FALSE
 INVARIANT Safe
 INVARIANT Emit
 CHECK_DEADLOCK FALSE
